@@ -154,6 +154,17 @@ def reset_path(E, trace):
     E.pc_hash = 0
 
 
+def exc_message(e):
+    """first argument of an interpreted exception when it is a plain string (diagnostics only)"""
+    try:
+        a = e.obj.d.get("args")
+        if isinstance(a, tuple) and a and isinstance(a[0], str):
+            return a[0][:200]
+    except Exception:      # noqa: BLE001
+        pass
+    return ""
+
+
 def explore(E, fn, args, *, initial_work=None, max_paths=None, deadline=None, collect_models=0,
             max_violations=1, split_at=None, split_after_s=None):
     """Explore all paths of fn(*args).  Returns a result dict.  `split_at`: stop once the work list
@@ -226,10 +237,10 @@ def explore(E, fn, args, *, initial_work=None, max_paths=None, deadline=None, co
             except PyExc as e:
                 if E.concrete_inputs is not None:
                     E.violations.append({"kind": "uncaught", "label": "uncaught:" + e.cls.name, "exc": e.cls.name,
-                                         "inputs": dict(E.concrete_inputs)})
+                                         "message": exc_message(e), "inputs": dict(E.concrete_inputs)})
                 elif E._check(need_model=True):
                     E.violations.append({"kind": "uncaught", "label": "uncaught:" + e.cls.name, "exc": e.cls.name,
-                                         "inputs": model_inputs(E, E.solver.model())})
+                                         "message": exc_message(e), "inputs": model_inputs(E, E.solver.model())})
             finally:
                 E.solver.pop()
             if len(E.violations) >= max_violations:
